@@ -9,6 +9,7 @@ package raft
 // only the order of the calls is the driver's, and the explorer enumerates it.
 
 import (
+	"fmt"
 	"sort"
 	"time"
 
@@ -26,9 +27,10 @@ type drvReq struct {
 }
 
 type drvHelperResult struct {
-	kind string
-	c    *conn
-	err  error
+	kind     string
+	c        *conn
+	err      error
+	panicked interface{}
 }
 
 type driver struct {
@@ -226,7 +228,15 @@ func (d *driver) startHelper(kind string, fn func() drvHelperResult) {
 	w.busy++
 	w.mu.Unlock()
 	go func() {
-		res := fn()
+		var res drvHelperResult
+		func() {
+			defer func() {
+				if v := recover(); v != nil {
+					res = drvHelperResult{kind: kind, panicked: v}
+				}
+			}()
+			res = fn()
+		}()
 		ch <- res
 		w.mu.Lock()
 		w.busy--
@@ -248,6 +258,10 @@ func (d *driver) collect() (bool, error) {
 		return false, nil
 	}
 	d.helper = nil
+	if res.panicked != nil {
+		d.guard(res.kind, func() { panic(res.panicked) })
+		return true, nil
+	}
 	if d.stopped || isClosed(d.repl.stopCh) {
 		if res.c != nil && res.c.rwc != nil {
 			_ = res.c.rwc.Close()
@@ -386,6 +400,32 @@ func (d *driver) recv() {
 	// remaining responses are drained, then the match index is searched again
 	d.draining = true
 	d.maybeLeavePipe()
+}
+
+// guard runs one driver event.  A panic raised by the real replication
+// methods is what replication.runLoop's deferred recover sees in production:
+// OpErrors are reported to the leader, runtime errors / assertion failures are
+// re-panicked by recoverErr and terminate the process.
+func (d *driver) guard(what string, fn func()) {
+	defer func() {
+		if v := recover(); v != nil {
+			var fatal bool
+			func() {
+				defer func() {
+					if recover() != nil {
+						fatal = true
+					}
+				}()
+				err := recoverErr(v)
+				d.repl.notifyLdr(err)
+			}()
+			if fatal {
+				d.n.w.led.violate("alive", "replication-goroutine-panic:"+simErrClass(fmt.Errorf("%v", v)), fmt.Sprintf("replication of leader %d to node %d (%s): %v - recoverErr re-panics: the process terminates", d.n.id, d.fid, what, v))
+			}
+			d.stop()
+		}
+	}()
+	fn()
 }
 
 // connFail is the deviation "the connection breaks under the stream".
